@@ -735,6 +735,16 @@ func Test_StatelessFuncs(t *testing.T) {
 		},
 		{
 			name: "strSubstring",
+			args: []interface{}{"abcdefg", int64(3), int64(7)},
+			exp:  "defg",
+		},
+		{
+			name: "strSubstring",
+			args: []interface{}{"abcdefg", int64(5), int64(3)},
+			err:  errors.New("start index 5 is larger than stop index 3 in strSubstring"),
+		},
+		{
+			name: "strSubstring",
 			args: []interface{}{""},
 			err:  errors.New("strSubstring expects exactly three arguments"),
 		},
